@@ -93,6 +93,18 @@ pub fn families(m: usize, n: usize, seed: u64) -> Vec<(&'static str, Vec<u8>, Ve
     h8.extend(vec![b'a'; n - n / 2]);
     out.push(("a^j c a^k in z^(n/2) a^(n/2)", nd8.clone(), h8));
     out.push(("a^j c a^k in a^n", nd8, vec![b'a'; n]));
+    // the mirror shape: a short left part (long enough that both prefilter bytes come from it) and a long
+    // self-overlapping right part, so that the critical position lies after the 'c'
+    if m >= 600 {
+        let mut nd9 = vec![b'a'; m];
+        nd9[300] = b'c';
+        let mut h9 = vec![b'z'; n / 2];
+        h9.extend(vec![b'a'; n - n / 2]);
+        out.push(("a^300 c a^k in z^(n/2) a^(n/2)", nd9.clone(), h9));
+        let mut h10 = rep(b"zzzzzzzzza", n / 2);
+        h10.extend(vec![b'a'; n - n / 2]);
+        out.push(("a^300 c a^k in (z^9 a)^r a^(n/2)", nd9, h10));
+    }
     // needle occurs everywhere (find_iter yields n/m matches)
     out.push(("a^m in a^n", vec![b'a'; m], vec![b'a'; n]));
     // seeded random over a 2-letter alphabet, needle cut from the haystack
